@@ -65,6 +65,10 @@ type fnTr struct {
 	njoin   int
 	ntmp    int
 	pre     []preBind
+	// xs[i] inside `for i := range xs` whose body assigns neither xs (nor an element of it) nor i IS the
+	// element: it is translated as the loop's element variable, not as an indexing that could panic
+	alias   map[[2]types.Object]string
+	aliasX  map[*ast.Ident]bool // the xs identifiers of such expressions (not free variables of the body)
 }
 
 func (t *fnTr) errf(n ast.Node, f string, a ...interface{}) error {
@@ -277,7 +281,15 @@ func (t *fnTr) assignedOuter(n ast.Node) []types.Object {
 		}
 		return true
 	})
-	sort.Slice(out, func(i, j int) bool { return out[i].Pos() < out[j].Pos() })
+	// a canonical order that does not depend on where the variables happen to be declared: by type, then
+	// by position (so that moving a declaration does not permute a loop's state tuple)
+	sort.Slice(out, func(i, j int) bool {
+		ti, tj := out[i].Type().String(), out[j].Type().String()
+		if ti != tj {
+			return ti < tj
+		}
+		return out[i].Pos() < out[j].Pos()
+	})
 	return out
 }
 
@@ -291,7 +303,7 @@ func (t *fnTr) readOuter(n ast.Node, except []types.Object) []types.Object {
 	var out []types.Object
 	ast.Inspect(n, func(x ast.Node) bool {
 		id, ok := x.(*ast.Ident)
-		if !ok {
+		if !ok || t.aliasX[id] {
 			return true
 		}
 		o := t.info.Uses[id]
@@ -546,6 +558,13 @@ func (t *fnTr) expr(e ast.Expr) (string, error) {
 		}
 		return t.hoist(fmt.Sprintf("go_slice %s %s %s", a, lo, hi), "opt"), nil
 	case *ast.IndexExpr:
+		if xi, ok := x.X.(*ast.Ident); ok {
+			if ii, ok := x.Index.(*ast.Ident); ok {
+				if n, ok := t.alias[[2]types.Object{t.info.Uses[xi], t.info.Uses[ii]}]; ok {
+					return n, nil
+				}
+			}
+		}
 		a, err := t.expr(x.X)
 		if err != nil {
 			return "", err
@@ -866,6 +885,9 @@ func (t *fnTr) stmts(list []ast.Stmt, env fnEnv) (string, error) {
 		return fmt.Sprintf("let %s := %s in\n%s", n, v, r), nil
 	case *ast.DeclStmt:
 		gd, ok := x.Decl.(*ast.GenDecl)
+		if ok && gd.Tok == token.CONST {
+			return next() // every use of a constant is folded to its value by go/types
+		}
 		if !ok || gd.Tok != token.VAR {
 			return "", t.errf(x, "declaration statement")
 		}
@@ -1226,16 +1248,7 @@ func (t *fnTr) rangeStmt(x *ast.RangeStmt, rest []ast.Stmt, env fnEnv) (string, 
 			except = append(except, t.info.Defs[id])
 		}
 	}
-	free := t.readOuter(x.Body, except)
 	var params, fargs []string
-	for _, o := range free {
-		g, err := t.gtype(o.Type())
-		if err != nil {
-			return "", err
-		}
-		params = append(params, fmt.Sprintf("(%s : %s)", t.nameOf(o), g))
-		fargs = append(fargs, t.nameOf(o))
-	}
 	kv := func(e ast.Expr, dflt string) string {
 		id, ok := e.(*ast.Ident)
 		if !ok || id.Name == "_" {
@@ -1249,6 +1262,56 @@ func (t *fnTr) rangeStmt(x *ast.RangeStmt, rest []ast.Stmt, env fnEnv) (string, 
 	}
 	if x.Value != nil {
 		vi = kv(x.Value, "_x")
+	}
+	if xsID, ok := x.X.(*ast.Ident); ok && vi == "_x" && ki != "_i" {
+		xsO, iO := t.info.Uses[xsID], t.info.Defs[x.Key.(*ast.Ident)]
+		stable := xsO != nil && t.isLocal(xsO)
+		for _, o := range t.assignedOuter(x.Body) {
+			if o == xsO {
+				stable = false
+			}
+		}
+		ast.Inspect(x.Body, func(n ast.Node) bool { // the key is never assigned in the body
+			switch st := n.(type) {
+			case *ast.AssignStmt:
+				for _, l := range st.Lhs {
+					if id, ok := l.(*ast.Ident); ok && t.info.Uses[id] == iO {
+						stable = false
+					}
+				}
+			case *ast.IncDecStmt:
+				if id, ok := st.X.(*ast.Ident); ok && t.info.Uses[id] == iO {
+					stable = false
+				}
+			}
+			return true
+		})
+		if stable {
+			vi = t.fresh("v_elem")
+			if t.alias == nil {
+				t.alias = map[[2]types.Object]string{}
+				t.aliasX = map[*ast.Ident]bool{}
+			}
+			t.alias[[2]types.Object{xsO, iO}] = vi
+			ast.Inspect(x.Body, func(n ast.Node) bool {
+				if ie, ok := n.(*ast.IndexExpr); ok {
+					if a, ok := ie.X.(*ast.Ident); ok && t.info.Uses[a] == xsO {
+						if b, ok := ie.Index.(*ast.Ident); ok && t.info.Uses[b] == iO {
+							t.aliasX[a] = true
+						}
+					}
+				}
+				return true
+			})
+		}
+	}
+	for _, o := range t.readOuter(x.Body, except) {
+		g, err := t.gtype(o.Type())
+		if err != nil {
+			return "", err
+		}
+		params = append(params, fmt.Sprintf("(%s : %s)", t.nameOf(o), g))
+		fargs = append(fargs, t.nameOf(o))
 	}
 	t.nloop++
 	name := fmt.Sprintf("%s%s_loop%d", t.prefix, t.fname, t.nloop)
@@ -1302,6 +1365,7 @@ func (t *fnTr) function(fd *ast.FuncDecl) (string, error) {
 	t.defs = nil
 	t.nloop, t.njoin, t.ntmp = 0, 0, 0
 	t.pre = nil
+	t.alias, t.aliasX = nil, nil
 	obj := t.info.Defs[fd.Name].(*types.Func)
 	sig := obj.Type().(*types.Signature)
 	if fd.Recv != nil {
@@ -1405,21 +1469,51 @@ func (t *fnTr) forStmt(x *ast.ForStmt, rest []ast.Stmt, env fnEnv) (string, erro
 	if id, ok := cond.X.(*ast.Ident); !ok || t.info.Uses[id] != io {
 		return bad()
 	}
-	ktv := t.info.Types[cond.Y]
-	if ktv.Value == nil || ktv.Value.Kind() != constant.Int {
-		return bad()
-	}
-	post, ok := x.Post.(*ast.IncDecStmt)
-	if !ok || post.Tok != token.INC {
-		return bad()
-	}
-	if id, ok := post.X.(*ast.Ident); !ok || t.info.Uses[id] != io {
+	// the post statement: i++ or i += 1
+	switch post := x.Post.(type) {
+	case *ast.IncDecStmt:
+		if id, ok := post.X.(*ast.Ident); !ok || t.info.Uses[id] != io || post.Tok != token.INC {
+			return bad()
+		}
+	case *ast.AssignStmt:
+		if post.Tok != token.ADD_ASSIGN || len(post.Lhs) != 1 || len(post.Rhs) != 1 {
+			return bad()
+		}
+		if id, ok := post.Lhs[0].(*ast.Ident); !ok || t.info.Uses[id] != io {
+			return bad()
+		}
+		if tv := t.info.Types[post.Rhs[0]]; tv.Value == nil || tv.Value.ExactString() != "1" {
+			return bad()
+		}
+	default:
 		return bad()
 	}
 	for _, o := range t.assignedOuter(x.Body) {
 		if o == io {
 			return bad()
 		}
+	}
+	// `for i := 0; i < len(xs); i++` over a local slice the body does not assign IS `for i := range xs`
+	if call, ok := cond.Y.(*ast.CallExpr); ok && len(call.Args) == 1 {
+		if f, ok := call.Fun.(*ast.Ident); ok {
+			if b, ok := t.info.Uses[f].(*types.Builtin); ok && b.Name() == "len" {
+				if xs, ok := call.Args[0].(*ast.Ident); ok {
+					xo := t.info.Uses[xs]
+					if _, isSlice := t.info.TypeOf(xs).Underlying().(*types.Slice); isSlice && xo != nil && t.isLocal(xo) {
+						for _, o := range t.assignedOuter(x.Body) {
+							if o == xo {
+								return bad()
+							}
+						}
+						return t.rangeStmt(&ast.RangeStmt{For: x.For, Key: iv, Tok: token.DEFINE, X: xs, Body: x.Body}, rest, env)
+					}
+				}
+			}
+		}
+	}
+	ktv := t.info.Types[cond.Y]
+	if ktv.Value == nil || ktv.Value.Kind() != constant.Int {
+		return bad()
 	}
 	// the counter is declared by the loop, so assignedOuter(x.Body) may list it only if assigned (excluded above)
 	var carried []types.Object
